@@ -37,7 +37,19 @@ class C18(C16):
     def generate(self, rng, tier):
         cases = super().generate(rng, tier)
         cases = [c for c in cases if not c.get("proto")]
+        # protocol-prefixed roots and include lines, with and without the protocol dispatcher in the loader stack
+        t = lambda n: {"k": "table", "n": n, "pad": 1}
+        ptree = {"folders": ["", "a", "c"], "links": [], "files": [
+            {"rel": "f1.csv", "blocks": [t(1), {"k": "include", "lines": ["file:a/f2.csv"]}, t(4), {"k": "include", "lines": ["FILE:/c/g.csv"]}]},
+            {"rel": "a/f2.csv", "blocks": [t(2), {"k": "include", "lines": ["file:../c/h.csv"]}]},
+            {"rel": "c/g.csv", "blocks": [t(3)]}, {"rel": "c/h.csv", "blocks": [t(5)]}]}
+        for stack in (False, True):
+            for root_spec in ("/f1.csv", "file:/f1.csv"):
+                cases.append({"tree": ptree, "cfg": {"use_root": True, "roots": [root_spec], "raising": True, "allow_include": True,
+                                                     "start_pattern": None, "proto_stack": stack}})
         for i, c in enumerate(cases):
+            if i % 3 == 1 and c.get("cfg"):
+                c["cfg"] = dict(c["cfg"], proto_stack=True)
             if i % 8 == 0:
                 c["xlsx"] = {"sheets": [["S1", [rng.randint(0, 3), rng.randint(1, 4)]], ["data 2", [rng.randint(0, 2)]]]}
         return cases
